@@ -1,18 +1,17 @@
 (** C10: restart on the same stores resumes without loss or regression - after a crash at any
-    point of a vote message or a proposed header, and after a clean restart.
+    point (but one) of any operation, and after a clean restart.
 
     Summary of what is proved here (mirror model, [Model/Mirror.v]):
       - [reachable_g]: states reachable from the initial state by operations, clean restarts and
         crashes ([xstep]), with the side conditions [wf_op] (those of MirrorTotal's [reachable_a]
         plus: no offered signature collection has an empty signature list [op_nonempty]; the next
-        validator set of an accepted header has at least one key [ph_adm]), restricted to
-        [op_covered] operations (proposed headers and votes; replayed headers are NOT covered)
-        and to [clean_cut] crash points (every crash point except the single one between the
+        validator set of an accepted / replayed header has at least one key), restricted to
+        [clean_cut] crash points (every crash point except the single one between the
         committed-header write and the position write of a commit).
       - [reachable_g_K]: every such state satisfies [INV] (cinv, auth_state, sinv, hinv), [tinv]
         and the store invariant [SI] of its stores.
       - [startup_never_fails_partial]: from every such state a clean restart comes up, and so does
-        the restart after a crash at every clean cut of every admissible covered operation.
+        the restart after a crash at every clean cut of every admissible operation.
       - [no_regression_partial]: the state after such a restart / crash has lost no committed
         header and its stored position is not behind the position stored before ([sadv]).
     The full statement (1) is FALSE without [op_nonempty]: Proofs/MirrorResumeWit.v. *)
@@ -21,16 +20,19 @@ From GV Require Import Base.Ints Gen.Math Gen.Kernel Model.Mirror
   Proofs.Thresholds Proofs.MirrorAuth Proofs.MirrorNoop Proofs.MirrorChain Proofs.MirrorCert
   Proofs.MirrorTotal Proofs.MirrorRestart Proofs.MirrorLog
   Proofs.MirrorResumeWit Proofs.MirrorResumeLoad Proofs.MirrorResumeInv Proofs.MirrorResumeStart
-  Proofs.MirrorResumeOps Proofs.MirrorResumeOps2 Proofs.MirrorResumeOps3 Proofs.MirrorResumeOps4.
+  Proofs.MirrorResumeOps Proofs.MirrorResumeOps2 Proofs.MirrorResumeOps3 Proofs.MirrorResumeOps4
+  Proofs.MirrorResumeOps5.
 Import ListNotations.
 Local Open Scope N_scope.
 
 (** * Side conditions *)
-Definition op_covered (o : op) : Prop := match o with OpReplay _ _ => False | _ => True end.
-
 Definition wf_op (o : op) (res : N) : Prop :=
   op_bounded o /\ step_adm o res /\ op_nonempty o /\
-  match o with OpPH p => ph_adm p res | _ => True end.
+  match o with
+  | OpPH p => ph_adm p res
+  | OpReplay x _ => vs_keys (hd_next x) <> []
+  | _ => True
+  end.
 
 (** the crash point is not the one between the committed-header write and the position write *)
 Definition clean_cut (s : kstate) (o : op) (k : nat) : Prop :=
@@ -41,8 +43,8 @@ Definition clean_cut (s : kstate) (o : op) (k : nat) : Prop :=
 
 Definition xwf (s : kstate) (x : xop) (res : N) : Prop :=
   match x with
-  | XOp o => wf_op o res /\ op_covered o
-  | XCrash k o => wf_op o res /\ op_covered o /\ clean_cut s o k
+  | XOp o => wf_op o res
+  | XCrash k o => wf_op o res /\ clean_cut s o k
   | XRestart => True
   end.
 
@@ -53,18 +55,19 @@ Inductive reachable_g (ih : N) (ivs : valset) : kstate -> Prop :=
 
 (** * One operation *)
 Lemma K_step ih ivs s o s' res :
-  K ih ivs s -> tinv s -> wf_op o res -> op_covered o -> step s o = Ok (s', res) ->
+  K ih ivs s -> tinv s -> wf_op o res -> step s o = Ok (s', res) ->
   K ih ivs s' /\ tinv s' /\ pref ih ivs s s'.
 Proof.
-  intros HK HT (Hb&Hadm&Hne&Hph) Hcov Hs.
+  intros HK HT (Hb&Hadm&Hne&Hph) Hs.
   assert (HT' : tinv s') by (eapply tinv_step; [exact (proj1 HK)|exact HT|exact Hadm|exact Hs]).
   assert (G : K ih ivs s' /\ pref ih ivs s s'); [|split; [exact (proj1 G)|split; [exact HT'|exact (proj2 G)]]].
-  destruct o as [p|m|m|x cp]; cbn [step] in Hs; [| | |destruct Hcov].
+  destruct o as [p|m|m|x cp]; cbn [step] in Hs.
   - unfold handle_ph in Hs. destruct (ph_key p).
     + eapply K_handle_ph_loop; eassumption.
     + inversion Hs; subst. split; [exact HK|apply pref_refl; exact (proj2 (proj2 (proj2 (proj2 (proj2 (proj2 HK))))))].
   - eapply K_handle_votes; [left; reflexivity|exact HK|exact Hne|exact Hs].
   - eapply K_handle_votes; [right; reflexivity|exact HK|exact Hne|exact Hs].
+  - cbn in Hb, Hadm, Hne, Hph. eapply K_handle_replay; [exact HK|exact HT|exact Hb|exact (proj1 Hadm)|exact Hph|exact Hne|exact Hs].
 Qed.
 
 (** * Restart on stores satisfying [SI] that are not behind given stores *)
@@ -97,13 +100,13 @@ Proof.
   intros Hih Hivs HK HT Hw Hx.
   pose proof (proj1 (proj1 HK)) as Hc. destruct Hc as (Hi1&Hi2&_).
   destruct x as [o|k o|]; cbn [xstep xwf] in *.
-  - destruct Hw as [Hw Hcov]. destruct (K_step _ _ _ _ _ _ HK HT Hw Hcov Hx) as (K1&T1&P1).
+  - destruct (K_step _ _ _ _ _ _ HK HT Hw Hx) as (K1&T1&P1).
     split; [exact K1|]. split; [exact T1|eapply pref_ends; exact P1].
-  - destruct Hw as (Hw&Hcov&Hcut). unfold clean_cut in Hcut.
+  - destruct Hw as (Hw&Hcut). unfold clean_cut in Hcut.
     destruct (step s o) as [[s1 r1]|] eqn:Hs; cbn [bind fst snd] in Hx; [|discriminate].
     assert (Er : r1 = res).
     { destruct (restart _ _ _ _ _); cbn [bind] in Hx; [inversion Hx; reflexivity|discriminate]. }
-    subst r1. destruct (K_step _ _ _ _ _ _ HK HT Hw Hcov Hs) as (_&_&(ws&L&S&P)).
+    subst r1. destruct (K_step _ _ _ _ _ _ HK HT Hw Hs) as (_&_&(ws&L&S&P)).
     assert (Hskip : skipn (List.length (st_log s)) (st_log s1) = ws)
       by (rewrite L, skipn_app, skipn_all, Nat.sub_diag; reflexivity).
     rewrite Hskip in *. destruct (P k Hcut) as (Q1&Q2&_).
@@ -139,7 +142,7 @@ Qed.
 Theorem startup_never_fails_partial ih ivs s :
   1 <= ih -> vwf ivs -> reachable_g ih ivs s ->
   (exists s', xstep s XRestart = Ok (s', 0)) /\
-  (forall o k s1 r, step s o = Ok (s1, r) -> wf_op o r -> op_covered o -> clean_cut s o k ->
+  (forall o k s1 r, step s o = Ok (s1, r) -> wf_op o r -> clean_cut s o k ->
      exists s', xstep s (XCrash k o) = Ok (s', r)).
 Proof.
   intros Hih Hivs Hr. destruct (reachable_g_K ih ivs s Hih Hivs Hr) as [HK HT].
@@ -149,8 +152,8 @@ Proof.
     destruct (restart_from ih ivs (stores_of s) (st_vals s) (st_log s) Hih Hivs
                 (proj2 (proj2 (proj2 (proj2 (proj2 (proj2 HK))))))) as (s2&E2&_).
     rewrite E2. cbn [bind]. eexists; reflexivity.
-  - intros o k s1 r Hs Hw Hcov Hcut. unfold clean_cut in Hcut. cbn [xstep]. rewrite Hs in *. cbn [bind fst snd].
-    destruct (K_step _ _ _ _ _ _ HK HT Hw Hcov Hs) as (_&_&(ws&L&S&P)).
+  - intros o k s1 r Hs Hw Hcut. unfold clean_cut in Hcut. cbn [xstep]. rewrite Hs in *. cbn [bind fst snd].
+    destruct (K_step _ _ _ _ _ _ HK HT Hw Hs) as (_&_&(ws&L&S&P)).
     assert (Hskip : skipn (List.length (st_log s)) (st_log s1) = ws)
       by (rewrite L, skipn_app, skipn_all, Nat.sub_diag; reflexivity).
     rewrite Hskip in *. destruct (P k Hcut) as (Q1&_&_). rewrite Hi1, Hi2.
@@ -177,13 +180,13 @@ Qed.
     uninterrupted operation reaches (start-up may then move on by its own re-evaluation) *)
 Theorem crash_stores_between ih ivs s o k s1 r :
   1 <= ih -> vwf ivs -> reachable_g ih ivs s ->
-  step s o = Ok (s1, r) -> wf_op o r -> op_covered o -> clean_cut s o k ->
+  step s o = Ok (s1, r) -> wf_op o r -> clean_cut s o k ->
   let st := fold_left apply_wr (firstn k (skipn (List.length (st_log s)) (st_log s1))) (stores_of s) in
   SI ih ivs st /\ sadv (stores_of s) st /\ sadv st (stores_of s1).
 Proof.
-  intros Hih Hivs Hr Hs Hw Hcov Hcut st. destruct (reachable_g_K ih ivs s Hih Hivs Hr) as [HK HT].
+  intros Hih Hivs Hr Hs Hw Hcut st. destruct (reachable_g_K ih ivs s Hih Hivs Hr) as [HK HT].
   unfold clean_cut in Hcut. rewrite Hs in Hcut.
-  destruct (K_step _ _ _ _ _ _ HK HT Hw Hcov Hs) as (_&_&(ws&L&S&P)).
+  destruct (K_step _ _ _ _ _ _ HK HT Hw Hs) as (_&_&(ws&L&S&P)).
   assert (Hskip : skipn (List.length (st_log s)) (st_log s1) = ws)
     by (rewrite L, skipn_app, skipn_all, Nat.sub_diag; reflexivity).
   unfold st. rewrite Hskip in *. exact (P k Hcut).
